@@ -296,14 +296,17 @@ func (sc *c15Scenario) runPool(s *simrt.Sim) {
 	h := sc.h
 	q := fpgo.NewBufferedChannelQueue[func()](sc.Cap, sc.BufMax, 1)
 	q.SetLoadFromPoolDuration(sc.LoadDur)
-	pool := worker.NewDefaultWorkerPool(q, nil)
-	pool.SetPanicHandler(func(v interface{}) {
-		sc.extra = append(sc.extra, Violation{Clause: "panic-handler", Fingerprint: "pool:foreign-panic:" + normPanic(v),
-			Detail: fmt.Sprintf("the pool's panic handler was invoked with %q although no job panics in this scenario", fmt.Sprint(v))})
+	var pool *worker.DefaultWorkerPool
+	s.NoPreempt(func() { // configuration applied as one step (see harness/c09_pool.go)
+		pool = worker.NewDefaultWorkerPool(q, nil)
+		pool.SetPanicHandler(func(v interface{}) {
+			sc.extra = append(sc.extra, Violation{Clause: "panic-handler", Fingerprint: "pool:foreign-panic:" + normPanic(v),
+				Detail: fmt.Sprintf("the pool's panic handler was invoked with %q although no job panics in this scenario", fmt.Sprint(v))})
+		})
+		pool.SetWorkerSizeMaximum(sc.PoolMax).SetWorkerSizeStandBy(sc.PoolStandBy).SetWorkerBatchSize(1).
+			SetSpawnWorkerDuration(time.Millisecond).SetWorkerExpiryDuration(20 * time.Millisecond).SetScheduleRetryInterval(time.Millisecond).
+			SetIsJobQueueClosedWhenClose(sc.CloseQueue)
 	})
-	pool.SetWorkerSizeMaximum(sc.PoolMax).SetWorkerSizeStandBy(sc.PoolStandBy).SetWorkerBatchSize(1).
-		SetSpawnWorkerDuration(time.Millisecond).SetWorkerExpiryDuration(20 * time.Millisecond).SetScheduleRetryInterval(time.Millisecond).
-		SetIsJobQueueClosedWhenClose(sc.CloseQueue)
 	var works []*c15Work
 	sched := func(name string, op c15UserOp) {
 		w := &c15Work{id: len(works)}
